@@ -70,3 +70,52 @@ def random_walks(cfg, visit, rng, n, bias=None):
         if visit(sim) is False:
             return False
     return True
+
+
+FAULT_KINDS = ("lose", "trunc", "drop", "cancel")
+_AFTER = {"back": 0, "start": 1, "deliver": 2, "timer": 3, "connect": 4}
+
+
+def sweep(cfg, visit, faults=FAULT_KINDS, second=False):
+    """single-fault sweep: take the fault-free run (always the first choice offered: start, then deliver, then
+    timer) and, for EVERY quiescent point of it and EVERY fault choice offered there, one run that follows the
+    fault-free run up to that point, injects the fault and then lets the environment recover (device back, reports
+    delivered, timers fired; no second fault unless `second`).  Linear in the length of the run, so no injection
+    point is left to the luck of the DFS budget or of the random walks.  Returns the number of runs."""
+    def run(pos, which):
+        n = [0]
+        offered = []
+
+        def chooser(ch, sim):
+            i = n[0]
+            n[0] += 1
+            fl = [j for j, c in enumerate(ch) if c[0] in faults]
+            if i < pos:
+                return 0
+            if i == pos:
+                offered.extend(fl)
+                if which < len(fl):
+                    return fl[which]
+                return 0
+            ok = [j for j, c in enumerate(ch) if c[0] not in faults or second]
+            if not ok:
+                return 0
+            return min(ok, key=lambda j: (_AFTER.get(ch[j][0], 9), j))
+        sim = Sim(dict(cfg, budget=dict(cfg.get("budget", {})))).run(chooser)
+        return sim, n[0], len(offered)
+
+    base, length, _ = run(10 ** 9, 0)
+    runs = 1
+    if visit(base) is False:
+        return runs
+    for pos in range(length):
+        which = 0
+        while True:
+            sim, _, nf = run(pos, which)
+            if which >= nf:
+                break
+            runs += 1
+            if visit(sim) is False:
+                return runs
+            which += 1
+    return runs
